@@ -80,8 +80,10 @@ impl UnitExponent {
 			.scale
 			.clone()
 			.pow(overall_exp.value.clone(), int)?;
-		*scale = Exact::new(scale.clone(), true).mul(&pow_result, int)?.value;
-		*exact = *exact && pow_result.exact;
+		// the product itself can be inexact (pi * pi is approximated)
+		let product = Exact::new(scale.clone(), true).mul(&pow_result, int)?;
+		*exact = *exact && pow_result.exact && product.exact;
+		*scale = product.value;
 		Ok(())
 	}
 
